@@ -108,6 +108,7 @@ def prog_constants(p, j=1, max_hist=4, max_cmds=3, unlocked_bug=False, selfdep_p
     d['RmFiles'] = sset([s(x) for x in p.get('rm', [])])
     d['DoEdits'] = sset([s(x) for x in p.get('doedits', [])])
     d['TmpFiles'] = sset([s(x) for x in p.get('tmpfiles', [])])
+    d['LogViewer'] = 'FALSE' if p.get('no_viewer') else 'TRUE'
     d['Alias'] = fn([(s(k), s(v)) for k, v in p.get('alias', {}).items()])
     d['Links'] = fn([(s(k), seq([s(x) for x in v])) for k, v in p.get('links', {}).items()])
     d['NoDir'] = sset([s(x) for x in p.get('nodir', [])])
